@@ -361,6 +361,9 @@ pub mod lists {
 /// `write_list`, `definitive_tactic` and friends of `lists.rs` with plain data.
 pub mod list_write;
 
+/// The rewrite decisions behind the opt-in options and the keyword tables of `utils.rs`.
+pub mod optin;
+
 /// Use trees, the comparators behind reordering and the grouping of reorderable items.
 ///
 /// Textual forms (shared by the checks of import reordering and import merging):
